@@ -157,9 +157,9 @@ FN('method', props=['C15'], ret='r', requires=[('C09.wf', 'self.inner.wf_prepare
 FN('uri', props=['C14'], ret='r', requires=[('C09.wf', 'self.inner.wf_prepare()')], ensures=[('C14.uri_of_flow_is_effective', '*r == self.inner.call.req().eff_uri()')])
 FN('version', props=['C17'], ret='r', requires=[('C09.wf', 'self.inner.wf_prepare()')], ensures=[('aux.Prepare.version', 'r == self.inner.call.req().request.spec_version()')])
 FN('headers', props=['C09'], ret='r', requires=[('C09.wf', 'self.inner.wf_prepare()')], ensures=[('aux.Prepare.headers', '*r == self.inner.call.req().request.spec_headers()')])
-FN('header', props=['C16', 'C09'], ret='r', trusted=True,
+FN('header', props=['C16', 'C09'], ret='r',
    requires=[('C09.wf', 'old(self).inner.wf_prepare()'), ('C16.quantifier_at_most_60_additions', 'old(self).inner.call.req().headers.view().len() + 3 <= crate::client::MAX_EXTRA_HEADERS')],
-   ensures=[('assumed.Flow.header', '''final(self).inner.wf_prepare() && old(self).inner.same_facts(&final(self).inner) && old(self).inner.call.req().same_but_added(&final(self).inner.call.req())
+   ensures=[('C16.added_header_is_appended', '''final(self).inner.wf_prepare() && old(self).inner.same_facts(&final(self).inner) && old(self).inner.call.req().same_but_added(&final(self).inner.call.req())
             && match (crate::client::amended::key_bytes::<K>(key), crate::client::amended::val_bytes::<V>(value)) {
                 (Some(n), Some(v)) => r is Ok && final(self).inner.call.req().added() == old(self).inner.call.req().added().push(Hdr { name: n, value: v }),
                 _ => r is Err && final(self).inner.call.req().added() == old(self).inner.call.req().added() }''')],
